@@ -2,7 +2,9 @@ package refnacl
 
 import (
 	"encoding/binary"
+	"io"
 	"math/bits"
+	"sync"
 )
 
 // mdPad is the Merkle-Damgaard padding shared by MD4 (RFC 1320 section 3.1,
@@ -20,48 +22,96 @@ func mdPad(msg []byte) []byte {
 	return append(p, l[:]...)
 }
 
-// MD4 is RFC 1320 section 3, written round by round from the text.
-func MD4(msg []byte) [16]byte {
-	A, B, C, D := uint32(0x67452301), uint32(0xefcdab89), uint32(0x98badcfe), uint32(0x10325476)
+// md4Compress is RFC 1320 section 3.4 for one 64-byte block, written round by
+// round from the text.
+func md4Compress(h *[4]uint32, blk []byte) {
 	F := func(x, y, z uint32) uint32 { return (x & y) | (^x & z) }
 	G := func(x, y, z uint32) uint32 { return (x & y) | (x & z) | (y & z) }
 	H := func(x, y, z uint32) uint32 { return x ^ y ^ z }
+	var X [16]uint32
+	for i := range X {
+		X[i] = binary.LittleEndian.Uint32(blk[4*i:])
+	}
+	v := *h
+	// op performs [abcd k s] where the register roles rotate with i:
+	// ABCD, DABC, CDAB, BCDA.
+	op := func(i int, f func(x, y, z uint32) uint32, k int, s int, add uint32) {
+		a := (4 - i%4) % 4
+		b, c, d := (a+1)%4, (a+2)%4, (a+3)%4
+		v[a] = bits.RotateLeft32(v[a]+f(v[b], v[c], v[d])+X[k]+add, s)
+	}
+	s1 := [4]int{3, 7, 11, 19}
+	for i := 0; i < 16; i++ {
+		op(i, F, i, s1[i%4], 0)
+	}
+	k2 := [16]int{0, 4, 8, 12, 1, 5, 9, 13, 2, 6, 10, 14, 3, 7, 11, 15}
+	s2 := [4]int{3, 5, 9, 13}
+	for i := 0; i < 16; i++ {
+		op(i, G, k2[i], s2[i%4], 0x5a827999)
+	}
+	k3 := [16]int{0, 8, 4, 12, 2, 10, 6, 14, 1, 9, 5, 13, 3, 11, 7, 15}
+	s3 := [4]int{3, 9, 11, 15}
+	for i := 0; i < 16; i++ {
+		op(i, H, k3[i], s3[i%4], 0x6ed9eba1)
+	}
+	for i := range h {
+		h[i] += v[i]
+	}
+}
+
+func md4Out(h [4]uint32) (out [16]byte) {
+	for i, v := range h {
+		binary.LittleEndian.PutUint32(out[4*i:], v)
+	}
+	return
+}
+
+// MD4 is RFC 1320 section 3.
+func MD4(msg []byte) [16]byte {
+	h := [4]uint32{0x67452301, 0xefcdab89, 0x98badcfe, 0x10325476}
 	p := mdPad(msg)
 	for off := 0; off < len(p); off += 64 {
-		var X [16]uint32
-		for i := range X {
-			X[i] = binary.LittleEndian.Uint32(p[off+4*i:])
-		}
-		v := [4]uint32{A, B, C, D}
-		// op performs [abcd k s] where the register roles rotate with i:
-		// ABCD, DABC, CDAB, BCDA.
-		op := func(i int, f func(x, y, z uint32) uint32, k int, s int, add uint32) {
-			a := (4 - i%4) % 4
-			b, c, d := (a+1)%4, (a+2)%4, (a+3)%4
-			v[a] = bits.RotateLeft32(v[a]+f(v[b], v[c], v[d])+X[k]+add, s)
-		}
-		s1 := [4]int{3, 7, 11, 19}
-		for i := 0; i < 16; i++ {
-			op(i, F, i, s1[i%4], 0)
-		}
-		k2 := [16]int{0, 4, 8, 12, 1, 5, 9, 13, 2, 6, 10, 14, 3, 7, 11, 15}
-		s2 := [4]int{3, 5, 9, 13}
-		for i := 0; i < 16; i++ {
-			op(i, G, k2[i], s2[i%4], 0x5a827999)
-		}
-		k3 := [16]int{0, 8, 4, 12, 2, 10, 6, 14, 1, 9, 5, 13, 3, 11, 7, 15}
-		s3 := [4]int{3, 9, 11, 15}
-		for i := 0; i < 16; i++ {
-			op(i, H, k3[i], s3[i%4], 0x6ed9eba1)
-		}
-		A, B, C, D = A+v[0], B+v[1], C+v[2], D+v[3]
+		md4Compress(&h, p[off:off+64])
 	}
-	var out [16]byte
-	binary.LittleEndian.PutUint32(out[0:], A)
-	binary.LittleEndian.PutUint32(out[4:], B)
-	binary.LittleEndian.PutUint32(out[8:], C)
-	binary.LittleEndian.PutUint32(out[12:], D)
-	return out
+	return md4Out(h)
+}
+
+// mdStream runs a Merkle-Damgaard hash over a reader without holding the
+// message in memory (used for messages whose bit length exceeds 2^32).
+func mdStream(r io.Reader, compress func(blk []byte)) error {
+	var total uint64
+	buf := make([]byte, 64)
+	for {
+		n, err := io.ReadFull(r, buf)
+		total += uint64(n)
+		if err == nil {
+			compress(buf)
+			continue
+		}
+		if err != io.EOF && err != io.ErrUnexpectedEOF {
+			return err
+		}
+		// final partial block: same padding rule as mdPad
+		tail := append([]byte{}, buf[:n]...)
+		tail = append(tail, 0x80)
+		for len(tail)%64 != 56 {
+			tail = append(tail, 0)
+		}
+		var l [8]byte
+		binary.LittleEndian.PutUint64(l[:], total*8)
+		tail = append(tail, l[:]...)
+		for off := 0; off < len(tail); off += 64 {
+			compress(tail[off : off+64])
+		}
+		return nil
+	}
+}
+
+// MD4Reader hashes everything r delivers.
+func MD4Reader(r io.Reader) ([16]byte, error) {
+	h := [4]uint32{0x67452301, 0xefcdab89, 0x98badcfe, 0x10325476}
+	err := mdStream(r, func(b []byte) { md4Compress(&h, b) })
+	return md4Out(h), err
 }
 
 // RIPEMD-160 from Dobbertin, Bosselaers, Preneel: "RIPEMD-160: a strengthened
@@ -103,10 +153,10 @@ func rmdF(j int, x, y, z uint32) uint32 {
 	}
 }
 
-// rmdR returns the message word index tables r (left line) and r' (right
+// rmdMakeR returns the message word index tables r (left line) and r' (right
 // line): round i of the left line uses rho^i, of the right line rho^i∘pi with
 // pi(i) = 9i+5 mod 16.
-func rmdR() (r, rp [80]int) {
+func rmdMakeR() (r, rp [80]int) {
 	var cur, curp [16]int
 	for i := 0; i < 16; i++ {
 		cur[i] = i
@@ -125,33 +175,55 @@ func rmdR() (r, rp [80]int) {
 	return
 }
 
-func RIPEMD160(msg []byte) [20]byte {
-	h := [5]uint32{0x67452301, 0xefcdab89, 0x98badcfe, 0x10325476, 0xc3d2e1f0}
-	r, rp := rmdR()
-	p := mdPad(msg)
-	for off := 0; off < len(p); off += 64 {
-		var X [16]uint32
-		for i := range X {
-			X[i] = binary.LittleEndian.Uint32(p[off+4*i:])
-		}
-		A, B, C, D, E := h[0], h[1], h[2], h[3], h[4]
-		Ap, Bp, Cp, Dp, Ep := h[0], h[1], h[2], h[3], h[4]
-		for j := 0; j < 80; j++ {
-			T := bits.RotateLeft32(A+rmdF(j, B, C, D)+X[r[j]]+rmdK[j/16], rmdS[j]) + E
-			A, E, D, C, B = E, D, bits.RotateLeft32(C, 10), B, T
-			T = bits.RotateLeft32(Ap+rmdF(79-j, Bp, Cp, Dp)+X[rp[j]]+rmdKP[j/16], rmdSP[j]) + Ep
-			Ap, Ep, Dp, Cp, Bp = Ep, Dp, bits.RotateLeft32(Cp, 10), Bp, T
-		}
-		T := h[1] + C + Dp
-		h[1] = h[2] + D + Ep
-		h[2] = h[3] + E + Ap
-		h[3] = h[4] + A + Bp
-		h[4] = h[0] + B + Cp
-		h[0] = T
+func rmdCompress(h *[5]uint32, blk []byte) {
+	r, rp := rmdTables()
+	var X [16]uint32
+	for i := range X {
+		X[i] = binary.LittleEndian.Uint32(blk[4*i:])
 	}
-	var out [20]byte
+	A, B, C, D, E := h[0], h[1], h[2], h[3], h[4]
+	Ap, Bp, Cp, Dp, Ep := h[0], h[1], h[2], h[3], h[4]
+	for j := 0; j < 80; j++ {
+		T := bits.RotateLeft32(A+rmdF(j, B, C, D)+X[r[j]]+rmdK[j/16], rmdS[j]) + E
+		A, E, D, C, B = E, D, bits.RotateLeft32(C, 10), B, T
+		T = bits.RotateLeft32(Ap+rmdF(79-j, Bp, Cp, Dp)+X[rp[j]]+rmdKP[j/16], rmdSP[j]) + Ep
+		Ap, Ep, Dp, Cp, Bp = Ep, Dp, bits.RotateLeft32(Cp, 10), Bp, T
+	}
+	T := h[1] + C + Dp
+	h[1] = h[2] + D + Ep
+	h[2] = h[3] + E + Ap
+	h[3] = h[4] + A + Bp
+	h[4] = h[0] + B + Cp
+	h[0] = T
+}
+
+var rmdR, rmdRP [80]int
+var rmdOnce sync.Once
+
+func rmdTables() (*[80]int, *[80]int) {
+	rmdOnce.Do(func() { rmdR, rmdRP = rmdMakeR() })
+	return &rmdR, &rmdRP
+}
+
+func rmdOut(h [5]uint32) (out [20]byte) {
 	for i, v := range h {
 		binary.LittleEndian.PutUint32(out[4*i:], v)
 	}
-	return out
+	return
+}
+
+func RIPEMD160(msg []byte) [20]byte {
+	h := [5]uint32{0x67452301, 0xefcdab89, 0x98badcfe, 0x10325476, 0xc3d2e1f0}
+	p := mdPad(msg)
+	for off := 0; off < len(p); off += 64 {
+		rmdCompress(&h, p[off:off+64])
+	}
+	return rmdOut(h)
+}
+
+// RIPEMD160Reader hashes everything r delivers.
+func RIPEMD160Reader(r io.Reader) ([20]byte, error) {
+	h := [5]uint32{0x67452301, 0xefcdab89, 0x98badcfe, 0x10325476, 0xc3d2e1f0}
+	err := mdStream(r, func(b []byte) { rmdCompress(&h, b) })
+	return rmdOut(h), err
 }
